@@ -174,4 +174,20 @@ def promoted_array(db, owner_path, idx):
         r = r[1]
     if r and r[0] == 'agg' and r[1] == 'array':
         return list(r[2])
+    # `&SYMBOLS` with `const SYMBOLS: [T; N] = [..]`: the promoted body only names the constant; read the constant's own initialiser
+    for blk in f.blocks:
+        for st in blk['stmts']:
+            un = ((st.get('rv') or {}).get('a') or {}).get('k', {}).get('uneval') if st['k'] == 'assign' and st['rv']['k'] == 'use' else None
+            g = db.fns.get(un) if un else None
+            if g is not None:
+                env2 = {}
+                for blk2 in g.blocks:
+                    for st2 in blk2['stmts']:
+                        if st2['k'] == 'assign' and not st2['p']['pr']:
+                            env2[st2['p']['l']] = _rvalue(env2, g, st2['rv'])
+                r2 = env2.get(0)
+                while r2 and r2[0] in ('ref', 'deref', 'cast'):
+                    r2 = r2[1]
+                if r2 and r2[0] == 'agg' and r2[1] == 'array':
+                    return list(r2[2])
     raise NotTabulable(f'promoted[{idx}] of {owner_path} is not an array aggregate: {r}')
